@@ -187,7 +187,7 @@ fn attempt_word(
                 // (some messages have several lines, an empty one among them, and some are long)
                 let n = nt();
                 w.push(Scenario::Log(match n % 4 {
-                    0 => format!("log line {n}\n\n  continued after an empty line\n"),
+                    0 => format!("log line {n}\n\nlog line {n} goes on after an empty line\n"),
                     1 => format!("log line {n} {}\n", "with a long tail of words that will not fit into a narrow terminal row ".repeat(1 + (n % 2) as usize)),
                     _ => format!("log line {n}\n"),
                 }));
